@@ -20,6 +20,7 @@ mkdir -p /verif/seeded/$N
 cp /tmp/seed-cur.diff /verif/seeded/$N/patch.diff
 cp $S/demo_test.go /verif/seeded/$N/demo_test.go
 cp $S/notes.md /verif/seeded/$N/notes.md 2>/dev/null
+cd /repo && test -z "$(git status --porcelain)" || { echo "REFUSING: /repo has uncommitted changes"; exit 2; }
 cd /repo && git apply /verif/seeded/$N/patch.diff || { echo "patch does not apply to /repo"; exit 2; }
 cd /verif && out=$(./check $P 2>&1); rc=$?
 git -C /repo checkout -- .
